@@ -33,6 +33,9 @@ def nrgbaRGBA (r g b a : Nat) : Nat × Nat × Nat × Nat :=
 /-- `color.RGBA{r,g,b,a}.RGBA()` (already premultiplied): `c |= c<<8`. -/
 def rgbaRGBA (r g b a : Nat) : Nat × Nat × Nat × Nat := (r * 257, g * 257, b * 257, a * 257)
 
+/-- `color.Gray{y}.RGBA()`: `y |= y<<8` for the three channels, alpha `0xffff`. -/
+def grayRGBA (y : Nat) : Nat × Nat × Nat × Nat := (y * 257, y * 257, y * 257, 0xffff)
+
 /-- A direct colour value `0x02RRGGBB` (flag bit 25 = RGB), by arithmetic. -/
 def directColor (r g b : Nat) : Nat := 2 ^ 25 + r * 65536 + g * 256 + b
 
